@@ -40,7 +40,7 @@ NoDueBy(t) ==
   /\ \A id \in Registered : surveys[id].due >= 0 => surveys[id].due > t
 \* no receive deadline strictly before d is still pending
 NoCallDueBefore(d) == \A th \in Thread : (call[th] # NULL /\ call[th].due >= 0 /\ call[th].due > now) => call[th].due >= d
-Ignored == {"accept", "listen", "lclose", "hook", "hookret", "pclose", "drop", "mkpipe", "pdrop"}
+Ignored == {"accept", "listen", "lclose", "hook", "hookret", "pclose", "drop", "mkpipe", "pdrop", "dial", "dialres"}
 UNCH_T == UNCHANGED <<res, got>>
 SeqToSet(s) == {s[i] : i \in 1..Len(s)}
 
